@@ -56,7 +56,12 @@ func genC08(r *rt.Rand, tier string, idx int) *world.Scenario {
 				if r.Chance(0.4) {
 					lim = int64(1 + r.Intn(3))
 				}
-				cl.Ops = append(cl.Ops, world.Op{K: "list", Key: prefix + "/", End: prefix + "0", Rev: revPool(), Limit: lim})
+				if r.Chance(0.25) {
+					// the range that holds exactly one key, as clients ask for a single object through the range API
+					cl.Ops = append(cl.Ops, world.Op{K: "list", Key: k, End: k + "\x00", Rev: revPool(), Limit: lim})
+				} else {
+					cl.Ops = append(cl.Ops, world.Op{K: "list", Key: prefix + "/", End: prefix + "0", Rev: revPool(), Limit: lim})
+				}
 			case 5:
 				cl.Ops = append(cl.Ops, world.Op{K: "stream", Key: prefix + "/", End: prefix + "0", Rev: revPool()})
 			case 6:
@@ -260,7 +265,12 @@ func checkC08(c *Ctx) {
 			if failed {
 				continue
 			}
-			want := m.Snap(R, prefix+"/", prefix+"0")
+			if r.Op.Key != prefix+"/" {
+				// the single-key shape: only its refusal below the floor is this property's business (what such
+				// a range contains is C16's: the key encoding does not keep "k" inside [k, k+"\x00"))
+				continue
+			}
+			want := m.Snap(R, r.Op.Key, r.Op.End)
 			if r.Op.K == "list" && r.Op.Limit > 0 && int64(len(want)) > r.Op.Limit {
 				want = want[:r.Op.Limit]
 			}
